@@ -361,6 +361,40 @@ fn mutations() -> R {
     Ok(())
 }
 
+/// byte-level mutation of small valid encodings: every bit flip, every byte deletion, insertion and overwrite
+fn byte_level() -> R {
+    let cat = spec::catalogue(if rt::thorough() { 5 } else { 4 }, true, false, false);
+    let extra = vec![n(l(1), vec![a(l(2), l(3)), a(l(4), l(5))]), n(l(1), vec![el(a(l(2), l(3))), a(l(4), co(l(5)))]), en(l(1))];
+    let i = choice(cat.len() + extra.len());
+    let s = if i < cat.len() { &cat[i] } else { &extra[i - cat.len()] };
+    let e = build(s);
+    let good = bytes(&e);
+    rt::assume(good.len() <= if rt::thorough() { 200 } else { 120 })?;
+    let pos = choice(good.len());
+    let kind = choice(4);
+    let mut data = good.clone();
+    let mut alias = false;
+    match kind {
+        0 => { data[pos] ^= 1 << choice(8); }
+        1 => { data.remove(pos); }
+        2 => { data.insert(pos, [0x00u8, 0x20, 0x40, 0x60, 0x80, 0xa0, 0xd8, 0xf6, 0xff][choice(9)]); }
+        _ => { let v = [0x00u8, 0x17, 0x18, 0x19, 0x1b, 0x58, 0x5f, 0x78, 0x80, 0x9f, 0xa0, 0xbf, 0xc9, 0xd8, 0xf5, 0xfb, 0xff][choice(17)]; alias = v == 0x18 && data[pos] == 0xc9 && pos > 0 && data[pos - 1] == 0xd8; data[pos] = v; }
+    }
+    rt::note(format!("{} byte {} kind {}", s.show(), pos, kind));
+    op("try_from_cbor_data (byte-level mutation)");
+    if let Ok(x) = Envelope::try_from_cbor_data(data.clone()) {
+        let out = bytes(&x);
+        if alias { ensure!(out == good, "alias #6.24 not read as #6.201", ""); }
+        else if out != data {
+            // the one tolerated alias: a deprecated #6.24 leaf tag in the input, written back as #6.201
+            let mut norm = data.clone();
+            for i in 0..norm.len().saturating_sub(1) { if norm[i] == 0xd8 && norm[i + 1] == 0x18 { norm[i + 1] = 0xc9; } }
+            ensure!(out == norm, "decoder accepted bytes that are not the encoding of the result", "{} byte {} kind {}: {} -> {}", s.show(), pos, kind, hex::encode(&data), hex::encode(&out));
+        }
+    }
+    Ok(())
+}
+
 /// top-level malformations and valid encodings
 fn toplevel() -> R {
     let e = build(&n(l(1), vec![a(l(2), l(3)), a(l(4), l(5))]));
@@ -437,8 +471,11 @@ pub fn prop_c06() -> Prop {
         id: "C06",
         scenarios: vec![
             Scenario { name: "mutations", f: mutations, thorough_only: false,
-                bounds: "valid encoding of every shape of <=6 (quick) / <=8 (thorough) elements + 16 larger shapes + obscured shapes <=4 x every single structural mutation of its CBOR tree (swap two assertion elements, duplicate one (in place / at the end), subject-only node, empty array, leaf / known value / wrapped assertion in an assertion slot, array extended, two-entry / empty assertion map, leaf retagged #6.24 (alias) / #6.999 / untagged, wrapped retagged, obscured element without digest / retagged, digest of 31 / 33 / 0 bytes, known value replaced by negative / text / float / bool), thorough: also double mutations x every digest order. Verdict: Err, or Ok(e) whose re-encoding equals the input, and never Ok on input the grammar recogniser rejects. Outside: byte-level flips / insertions / random bytes below the CBOR-tree level (dcbor's decoder), nesting-depth limits",
+                bounds: "valid encoding of every shape of <=6 (quick) / <=8 (thorough) elements + 16 larger shapes + obscured shapes <=4 x every single structural mutation of its CBOR tree (swap two assertion elements, duplicate one (in place / at the end), subject-only node, empty array, leaf / known value / wrapped assertion in an assertion slot, array extended, two-entry / empty assertion map, leaf retagged #6.24 (alias) / #6.999 / untagged, wrapped retagged, obscured element without digest / retagged, digest of 31 / 33 / 0 bytes, known value replaced by negative / text / float / bool), thorough: also double mutations x every digest order. Verdict: Err, or Ok(e) whose re-encoding equals the input, and never Ok on input the grammar recogniser rejects. Outside: nesting-depth limits, random bytes",
                 api: &["try_from_cbor_data", "from_untagged_cbor", "Assertion::try_from(CBOR)", "new_with_assertions"] },
+            Scenario { name: "byte_level", f: byte_level, thorough_only: false,
+                bounds: "valid encoding (<=120 bytes quick / <=200 thorough) of every shape of <=4 (5) elements + 3 larger / obscured ones x every byte position x {every single-bit flip, deletion, insertion of 9 values, overwrite with 17 head / tag / break values} (choice variables, exhaustively forked). dcbor's byte decoder is executed, not solver-decided; multi-byte mutations and random bytes are outside",
+                api: &["try_from_cbor_data"] },
             Scenario { name: "toplevel", f: toplevel, thorough_only: false,
                 bounds: "19 top-level / byte-level cases (untagged, wrong tag, empty, truncated, trailing byte, non-minimal and indefinite heads, non-envelope simple values, non-canonical known value, non-deterministic CBOR inside a leaf)",
                 api: &["try_from_cbor_data"] },
